@@ -34,8 +34,8 @@ def emit_function(cname, spec, af=False, extra_opts=None):
         fs = [f for f in fs if r['sel'] in X.qtype(f)]
     if r.get('nsel'):
         fs = [f for f in fs if r['nsel'] not in X.qtype(f)]
-    if r.get('parent_targs'):
-        pass
+    if r.get('cls_targs'):
+        fs = [f for f in fs if list(f.get('_cls_targs', [])) == list(r['cls_targs'])]
     if len(fs) == 0:
         raise X.ExtractError('function %s (%s::%s) not found in the AST' % (cname, r.get('cls'), r['name']))
     # several identical instantiations may be printed; they must agree in source range
@@ -159,6 +159,38 @@ def emit_fragment(fname):
     return dict(text=txt, native_text=ntxt, sig='', fired=em.fired, audit=[audit], loops=[], calls=em.calls, free=em.free)
 
 
+def gen_struct(uname, cls, cls_targs=None, cname=None):
+    """C struct generated from the FieldDecls of the (instantiated or pattern) class (G10)."""
+    u = unit(uname)
+    cs = u.find_class(cls)
+    if cls_targs is not None:
+        def targs(c):
+            return [str(a.get('type', {}).get('qualType', a.get('value'))) for a in X.kids(c) if a['kind'] == 'TemplateArgument']
+        cs = [c for c in cs if targs(c) == list(cls_targs)]
+    if not cs:
+        raise X.ExtractError('class %s not found' % cls)
+    c = cs[-1]
+    tm = X.TypeMap()
+    out = []
+    for b in c.get('bases', []):
+        bi = tm.info(b['type']['qualType'])
+        out.append('  struct %s base;' % bi['ctype'])
+    for f in X.kids(c):
+        if f['kind'] != 'FieldDecl':
+            continue
+        ti = tm.info(X.qtype(f))
+        nm = f['name']
+        cty = ('struct ' + ti['ctype']) if ti['kind'] == 'class' else ti['ctype']
+        if ti['kind'] == 'carray':
+            out.append('  %s %s[%d];' % (cty, nm, ti['count']))
+        elif ti['ref'] or ti['ptr']:
+            out.append('  %s%s *%s;' % ('const ' if ti['const'] else '', cty, nm))
+        else:
+            out.append('  %s %s;' % (cty, nm))
+    name = cname or tm.info(cls + '<double>')['ctype']
+    return 'struct %s {\n%s\n};' % (name, '\n'.join(out))
+
+
 def load_specs(fnames):
     spec, names = {}, {}
     for f in fnames:
@@ -176,6 +208,19 @@ def build_tu(job):
     for h in job.get('preludes', []):
         parts.append('#include "%s"' % h)
     parts.append('int vp_thrown; size_t vp_gk, vp_gj;')
+    for st in job.get('structs', []):
+        if isinstance(st, str):
+            st = dict(cls=st)
+        if st.get('opaque'):
+            parts.append('struct %s { int vp_opaque; };' % st['cname'])
+            continue
+        parts.append(gen_struct(st.get('unit', 'kernels'), st['cls'], st.get('cls_targs'), st.get('cname')))
+        if st.get('vec'):
+            parts.append('VP_DECLARE_VEC(vec_%s, struct %s)' % (st.get('cname') or st['cls'], st.get('cname') or st['cls']))
+    if job.get('globals'):
+        parts.append(job['globals'])
+    for h in job.get('late_preludes', []):
+        parts.append('#include "%s"' % h)
     meta = dict(functions=[], fired={}, loops=[])
     emitted = []
     for cname in job['functions']:
@@ -235,7 +280,7 @@ def run_job(job, tier='quick', log=print):
         return res
     res['meta'] = dict(functions=meta['functions'], fired=meta['fired'])
     real = job.get('real', 'double')
-    defines = ['VP_REAL=' + real] + job.get('defines', [])
+    defines = ['VP_REAL=' + real] + job.get('defines', []) + (['VP_AF'] if job.get('af') and not job.get('bp') else [])
     entry = job['entry']
     gb, r = B1.compile_goto(cfile, OUT, entry, defines, [PRELUDE, ROOT])
     res['cmds'].append(r['cmd'])
@@ -251,14 +296,26 @@ def run_job(job, tier='quick', log=print):
         return res
     solvers = job.get('solvers', ['cadical', 'cvc5'])
     timeout = job.get('timeout', {}).get(tier, 300 if tier == 'quick' else 1800)
-    rs = B1.portfolio(igb, solvers, timeout, need_all=(tier == 'thorough' and job.get('agree', True)),
-                      extra=job.get('cbmc_flags', []), object_bits=job.get('object_bits', 12))
+    members = [dict(label=s, igb=igb, solver=s, extra=job.get('cbmc_flags', [])) for s in solvers]
+    # a second binary without the canary, run with --stop-on-fail: finds ONE failing obligation fast even
+    # when some other obligation is too hard to decide (a failing obligation must not hide behind a timeout)
+    gb2, r2 = B1.compile_goto(cfile, OUT, entry, defines + ['VP_NO_CANARY'], [PRELUDE, ROOT], suffix='.sof')
+    if r2['rc'] == 0:
+        igb2, r3 = B1.instrument(gb2, entry, job.get('enforce'), job.get('replace', []), loop_contracts=job.get('loop_contracts', True))
+        if r3['rc'] == 0:
+            members.append(dict(label='cadical-sof', igb=igb2, solver='cadical', extra=list(job.get('cbmc_flags', [])) + ['--stop-on-fail'], sof=True))
+    rs = B1.portfolio(members, timeout, need_all=(tier == 'thorough' and job.get('agree', True)), object_bits=job.get('object_bits', 12))
     verdicts = {}
+    sof = None
     for s, r in rs.items():
         res['cmds'].append(r['cmd'])
         p = r['parsed']
+        if s == 'cadical-sof':
+            if p is not None and p['status'] == 'failure' and 'ignoring' not in ' '.join(p['messages']):
+                sof = (p, r['secs'])
+            continue
         if p is None or p['status'] not in ('success', 'failure'):
-            why = 'timeout' if r['timeout'] else ('rc=%s %s' % (r['rc'], (r['err'] or r['out'])[-400:]))
+            why = 'timeout' if r['timeout'] else ('stopped' if r['rc'] in (-9, 137) else 'rc=%s %s' % (r['rc'], (r['err'] or r['out'])[-300:]))
             res['notes'].append('%s: no answer (%s) after %.1fs' % (s, why, r['secs']))
             continue
         txt = ' '.join(p['messages'])
@@ -266,6 +323,24 @@ def run_job(job, tier='quick', log=print):
             res['notes'].append('%s: answer discarded (log contains "ignoring")' % s)
             continue
         verdicts[s] = (p, r['secs'])
+    if not verdicts and sof is not None:
+        # only the stop-on-fail run answered: one failed obligation, everything else unknown
+        p, secs = sof
+        for pr in p['props']:
+            if str(pr.get('status', '')).upper() not in ('FAILURE', 'FAILED'):
+                continue
+            if 'sourceLocation' not in pr and pr.get('trace'):
+                pr['sourceLocation'] = pr['trace'][-1].get('sourceLocation', {})
+            if 'VP_CANARY' in pr.get('description', ''):
+                continue
+            name, kind = classify(pr, meta['names'])
+            res['obligations'].append(dict(id=pr['property'], name=name, kind=kind, status='failed', description=pr.get('description', ''),
+                                           loc='%s:%s' % (os.path.basename(pr.get('sourceLocation', {}).get('file', '?')), pr.get('sourceLocation', {}).get('line', '?')),
+                                           solver='cadical --stop-on-fail', secs=secs, real=real, job=job['name'], trace=pr.get('trace')))
+        res['notes'].append('full runs gave no answer; the --stop-on-fail run found a failing obligation')
+        res['status'] = 'failed' if res['obligations'] else 'undecided'
+        res['secs'] = time.time() - t0
+        return res
     if not verdicts:
         res['status'] = 'undecided'
         res['secs'] = time.time() - t0
